@@ -1470,3 +1470,14 @@ package zygo
 //@ ghost touched := false @entry
 //@ ghost touched := touched || arg0 == lazy @before call store_SexpLazyArg[*]
 //@ C05 ensures failed-force-leaves-the-argument-alone: r1 != nil ==> !touched
+
+// C02: map applies its function to the elements in order, first element first: the head is
+// handed to the function before the rest of the list is touched; over an array position i is
+// applied before position i+1 and results land at their own position.
+//@ func MapList
+//@ ghost headDone := false @entry
+//@ ghost headDone := true @after call Apply[0]
+//@ C02 assert head-first @before call Apply[0]: arg0 == env && arg1 == fun && len(arg2) == 1 && arg2[0] == expr.(*SexpPair).Head && !headDone
+//@ C02 assert then-the-rest @before call MapList[0]: headDone && arg0 == env && arg1 == fun
+//@ func MapArray
+//@ C02 assert position-by-position @before call Apply[0]: arg0 == env && arg1 == fun && len(arg2) == 1 && sarr(arg2) == sarr(arr.Val) && soff(arg2) == soff(arr.Val) + i && 0 <= i
